@@ -349,7 +349,7 @@ class Repo:
     # ------------------------------------------------------------------ constant folding
     def fold(self, mod: Module, expr: ast.AST, depth: int = 0):
         """Fold tuple/list/set/str/int constants, names and `+` concatenations. None if unknown."""
-        if depth > 12:
+        if depth > 40:
             return None
         if isinstance(expr, ast.Constant):
             return expr.value
